@@ -60,7 +60,7 @@ theorem wire_injective {n n' c c' : Bytes} (hb : IsBytes (n ++ c)) (hb' : IsByte
     is empty, or the originally issued plaintext of a value the client sent under that very name that
     decodes to the same ciphertext as an issued one. Never any other text. -/
 theorem tampered_reaches_handler_empty_or_original {C : Codec} {wc : WireCodec} {iss : Issued}
-    (hS : C.Sound wc iss) (ex : List Bytes) (j : Jar) (k v : Bytes)
+    (ex : List Bytes) (j : Jar) (hS : C.SoundOn wc iss j) (k v : Bytes)
     (hm : (k, v) ∈ decryptJar C ex j) (hk : isDisabled k ex = false) :
     v = [] ∨ ∃ r c0, (k, r) ∈ j ∧ (c0, v) ∈ iss ∧ sameCipher wc r c0 = true := by
   rw [decryptJar_eq] at hm
@@ -73,12 +73,12 @@ theorem tampered_reaches_handler_empty_or_original {C : Codec} {wc : WireCodec} 
   | none => left; rfl
   | some p =>
     right
-    obtain ⟨c0, h1, h2⟩ := hS r p hd
+    obtain ⟨c0, h1, h2⟩ := hS _ r p hj hd
     exact ⟨r, c0, hj, by simpa using h1, h2⟩
 
 /-- LOOKUP view (`c.Cookies(name)`) -/
 theorem tampered_reaches_handler_empty_or_original_lookup {C : Codec} {wc : WireCodec} {iss : Issued}
-    (hS : C.Sound wc iss) (ex : List Bytes) (j : Jar) (k : Bytes) (hk : isDisabled k ex = false) :
+    (ex : List Bytes) (j : Jar) (hS : C.SoundOn wc iss j) (k : Bytes) (hk : isDisabled k ex = false) :
     lookup (decryptJar C ex j) k = [] ∨
     ∃ r c0, (k, r) ∈ j ∧ (c0, lookup (decryptJar C ex j) k) ∈ iss ∧ sameCipher wc r c0 = true := by
   unfold lookup
@@ -88,12 +88,12 @@ theorem tampered_reaches_handler_empty_or_original_lookup {C : Codec} {wc : Wire
     have hm : (k, v) ∈ decryptJar C ex j := by
       rw [peek_eq_head] at hp
       exact mem_bindValues.mp (List.mem_of_head? hp)
-    simpa using tampered_reaches_handler_empty_or_original hS ex j k v hm hk
+    simpa using tampered_reaches_handler_empty_or_original ex j hS k v hm hk
 
 /-- BIND view (`Bind().Cookie` into `map[string][]string`, and the last element, which is what
     `map[string]string` receives) -/
 theorem tampered_reaches_handler_empty_or_original_bind {C : Codec} {wc : WireCodec} {iss : Issued}
-    (hS : C.Sound wc iss) (ex : List Bytes) (j : Jar) (k v : Bytes) (hk : isDisabled k ex = false)
+    (ex : List Bytes) (j : Jar) (hS : C.SoundOn wc iss j) (k v : Bytes) (hk : isDisabled k ex = false)
     (hv : v ∈ bindValues (decryptJar C ex j) k ∨
           ((bindValues (decryptJar C ex j) k) ≠ [] ∧ v = bindLast (decryptJar C ex j) k)) :
     v = [] ∨ ∃ r c0, (k, r) ∈ j ∧ (c0, v) ∈ iss ∧ sameCipher wc r c0 = true := by
@@ -104,18 +104,18 @@ theorem tampered_reaches_handler_empty_or_original_bind {C : Codec} {wc : WireCo
       cases hl : (bindValues (decryptJar C ex j) k).getLast? with
       | none => rw [List.getLast?_eq_none_iff] at hl; exact absurd hl hne
       | some x => simpa using List.mem_of_getLast? hl
-  exact tampered_reaches_handler_empty_or_original hS ex j k v (mem_bindValues.mp hmem) hk
+  exact tampered_reaches_handler_empty_or_original ex j hS k v (mem_bindValues.mp hmem) hk
 
 /-- A cookie that is the only one of its name reaches the handler exactly once and with exactly the
     value the property prescribes: the issued plaintext when it denotes an issued ciphertext, empty
     otherwise (round trip + rejection, as one statement). -/
-theorem single_cookie_exact {C : Codec} {wc : WireCodec} {iss : Issued} (hS : C.Sound wc iss)
-    (hC : C.Complete wc iss) (ex : List Bytes) (j : Jar) (k r : Bytes) (hk : isDisabled k ex = false)
+theorem single_cookie_exact {C : Codec} {wc : WireCodec} {iss : Issued} (ex : List Bytes) (j : Jar)
+    (hS : C.SoundOn wc iss j) (hC : C.Complete wc iss) (k r : Bytes) (hk : isDisabled k ex = false)
     (h1 : bindValues j k = [r]) :
     bindValues (decryptJar C ex j) k = [(C.dec r).getD []] ∧
     lookup (decryptJar C ex j) k = (C.dec r).getD [] ∧
     expectOne wc iss r ((C.dec r).getD []) = true := by
-  refine ⟨?_, ?_, expectOne_openValue hS hC r⟩
+  refine ⟨?_, ?_, expectOne_openValue r (fun p hd => hS k r p (mem_bindValues.mp (by rw [h1]; simp)) hd) hC⟩
   · rw [bindValues_decryptJar, h1]; simp [openValue, hk]
   · rw [lookup_decryptJar, peek_eq_head, h1]; simp [openValue, hk]
 
@@ -135,8 +135,8 @@ theorem except_passthrough_request (C : Codec) (ex : List Bytes) (j : Jar) (k : 
 
 /-! ### the executable oracle accepts the model, clause by clause, for every input -/
 
-theorem enum_clause {C : Codec} {wc : WireCodec} {iss : Issued} (hS : C.Sound wc iss)
-    (ex : List Bytes) (j : Jar) : enumOK wc ex iss j (decryptJar C ex j) = true := by
+theorem enum_clause {C : Codec} {wc : WireCodec} {iss : Issued} (ex : List Bytes) (j : Jar)
+    (hS : C.SoundOn wc iss j) : enumOK wc ex iss j (decryptJar C ex j) = true := by
   unfold enumOK
   rw [List.all_eq_true]
   intro e he
@@ -144,28 +144,26 @@ theorem enum_clause {C : Codec} {wc : WireCodec} {iss : Issued} (hS : C.Sound wc
   | true => rfl
   | false =>
     simp only [Bool.false_or]
-    rcases tampered_reaches_handler_empty_or_original hS ex j e.1 e.2 he hk with h | ⟨r, c0, h1, h2, h3⟩
+    rcases tampered_reaches_handler_empty_or_original ex j hS e.1 e.2 he hk with h | ⟨r, c0, h1, h2, h3⟩
     · rw [h]; exact valueOK_nil wc iss j e.1
     · simp only [valueOK, Bool.or_eq_true]
       right
       rw [List.any_eq_true]
       exact ⟨r, mem_bindValues.mpr h1, by simpa using mem_authPlain h2 h3⟩
 
-theorem look_clause {C : Codec} {wc : WireCodec} {iss : Issued} (hS : C.Sound wc iss)
-    (hC : C.Complete wc iss) (ex : List Bytes) (j : Jar) (ks : List Bytes) :
+theorem look_clause {C : Codec} {wc : WireCodec} {iss : Issued} (ex : List Bytes) (j : Jar)
+    (hS : C.SoundOn wc iss j) (hC : C.Complete wc iss) (ks : List Bytes) :
     lookOK wc ex iss j (ks.map fun k => (k, lookup (decryptJar C ex j) k)) = true := by
   unfold lookOK
   rw [List.all_eq_true]
   intro e he
   obtain ⟨k, _, rfl⟩ := List.mem_map.mp he
   cases hk : isDisabled k ex with
-  | true =>
-    simp only [if_true]
-    rw [(except_passthrough_request C ex j k hk).1]; simp
+  | true => rfl
   | false =>
-    simp only [Bool.false_eq_true, if_false, Bool.and_eq_true]
+    simp only [Bool.false_or, Bool.and_eq_true]
     constructor
-    · rcases tampered_reaches_handler_empty_or_original_lookup hS ex j k hk with h | ⟨r, c0, h1, h2, h3⟩
+    · rcases tampered_reaches_handler_empty_or_original_lookup ex j hS k hk with h | ⟨r, c0, h1, h2, h3⟩
       · rw [h]; exact valueOK_nil wc iss j k
       · simp only [valueOK, Bool.or_eq_true]
         right
@@ -176,11 +174,25 @@ theorem look_clause {C : Codec} {wc : WireCodec} {iss : Issued} (hS : C.Sound wc
       | nil => simp
       | cons r t =>
         cases t with
-        | nil => simpa [openValue, hk] using expectOne_openValue hS hC r
+        | nil =>
+          simpa [openValue, hk] using
+            expectOne_openValue r (fun p hd => hS k r p (mem_bindValues.mp (by rw [hb]; simp)) hd) hC
         | cons _ _ => rfl
 
-theorem bind_clause {C : Codec} {wc : WireCodec} {iss : Issued} (hS : C.Sound wc iss)
-    (ex : List Bytes) (j : Jar) :
+theorem look_except_clause (C : Codec) (ex : List Bytes) (j : Jar) (ks : List Bytes) :
+    lookExceptOK ex j (ks.map fun k => (k, lookup (decryptJar C ex j) k)) = true := by
+  unfold lookExceptOK
+  rw [List.all_eq_true]
+  intro e he
+  obtain ⟨k, _, rfl⟩ := List.mem_map.mp he
+  cases hk : isDisabled k ex with
+  | false => rfl
+  | true =>
+    simp only [Bool.not_true, Bool.false_or]
+    rw [(except_passthrough_request C ex j k hk).1]; simp
+
+theorem bind_clause {C : Codec} {wc : WireCodec} {iss : Issued} (ex : List Bytes) (j : Jar)
+    (hS : C.SoundOn wc iss j) :
     bindOK wc ex iss j ((distinctKeys (decryptJar C ex j)).map fun k => (k, bindValues (decryptJar C ex j) k)) = true := by
   unfold bindOK
   rw [List.all_eq_true]
@@ -195,15 +207,15 @@ theorem bind_clause {C : Codec} {wc : WireCodec} {iss : Issued} (hS : C.Sound wc
     simpa using List.mem_of_mem_take hv
   | false =>
     simp only [Bool.false_eq_true, if_false]
-    rcases tampered_reaches_handler_empty_or_original hS ex j k v (mem_bindValues.mp hv) hk with h | ⟨r, c0, h1, h2, h3⟩
+    rcases tampered_reaches_handler_empty_or_original ex j hS k v (mem_bindValues.mp hv) hk with h | ⟨r, c0, h1, h2, h3⟩
     · rw [h]; exact valueOK_nil wc iss j k
     · simp only [valueOK, Bool.or_eq_true]
       right
       rw [List.any_eq_true]
       exact ⟨r, mem_bindValues.mpr h1, by simpa using mem_authPlain h2 h3⟩
 
-theorem once_clause {C : Codec} {wc : WireCodec} {iss : Issued} (hS : C.Sound wc iss)
-    (hC : C.Complete wc iss) (ex : List Bytes) (j : Jar) : onceOK wc ex iss j (decryptJar C ex j) = true := by
+theorem once_clause {C : Codec} {wc : WireCodec} {iss : Issued} (ex : List Bytes) (j : Jar)
+    (hS : C.SoundOn wc iss j) (hC : C.Complete wc iss) : onceOK wc ex iss j (decryptJar C ex j) = true := by
   unfold onceOK
   rw [List.all_eq_true]
   intro k _
@@ -217,7 +229,7 @@ theorem once_clause {C : Codec} {wc : WireCodec} {iss : Issued} (hS : C.Sound wc
       cases t with
       | cons _ _ => rfl
       | nil =>
-        have := single_cookie_exact hS hC ex j k r hk hb
+        have := single_cookie_exact ex j hS hC k r hk hb
         simp only [this.1]
         exact this.2.2
 
@@ -242,12 +254,12 @@ theorem names_clause (C : Codec) (ex : List Bytes) (j : Jar) : namesOK j (decryp
     complete with respect to the issued log, every Except list, every request cookie collection
     (duplicates included) and every set of names looked up, no clause of the executable property
     oracle is violated by what the handler sees — in any of its views. -/
-theorem request_meets_spec {C : Codec} {wc : WireCodec} {iss : Issued} (hS : C.Sound wc iss)
-    (hC : C.Complete wc iss) (ex : List Bytes) (j : Jar) (ks : List Bytes) :
+theorem request_meets_spec {C : Codec} {wc : WireCodec} {iss : Issued} (ex : List Bytes) (j : Jar)
+    (hS : C.SoundOn wc iss j) (hC : C.Complete wc iss) (ks : List Bytes) :
     reqViolation wc ex iss j (modelViews C ex j ks) = none := by
   unfold reqViolation modelViews
-  simp only [enum_clause hS ex j, look_clause hS hC ex j ks, bind_clause hS ex j, once_clause hS hC ex j,
-    except_clause C ex j, names_clause C ex j, hdrOK]
+  simp only [enum_clause ex j hS, look_clause ex j hS hC ks, bind_clause ex j hS, once_clause ex j hS hC,
+    except_clause C ex j, look_except_clause C ex j ks, names_clause C ex j, hdrOK]
   simp
 
 /-! ## response direction -/
@@ -341,7 +353,7 @@ theorem request_meets_spec_aesgcm {A : Aead} {key kd : Bytes} {L : SealLog} (hk 
     (hv : validKeyLen kd.length = true) (hA : A.Authentic kd L) (hL : A.Logged kd L)
     (ex : List Bytes) (j : Jar) (ks : List Bytes) :
     reqViolation stdWire ex (wireIssued L) j (modelViews (stdCodec A key) ex j ks) = none :=
-  request_meets_spec (std_sound hk hA) (std_complete hk hv hL) ex j ks
+  request_meets_spec ex j ((std_sound hk hA).on j) (std_complete hk hv hL) ks
 
 /-- … and for the custom Encryptor/Decryptor pair of the harness -/
 theorem request_meets_spec_custom {A : Aead} {key kd : Bytes} {L : SealLog} (hk : decode key = some kd)
@@ -349,16 +361,18 @@ theorem request_meets_spec_custom {A : Aead} {key kd : Bytes} {L : SealLog} (hk 
     (ex : List Bytes) (j : Jar) (ks : List Bytes) :
     reqViolation wrapWire ex (wrapIssued (wireIssued L)) j
       (modelViews (wrapCodec (stdCodec A key)) ex j ks) = none :=
-  request_meets_spec (wrap_sound (std_sound hk hA)) (wrap_complete (std_complete hk hv hL)) ex j ks
+  request_meets_spec ex j ((wrap_sound (std_sound hk hA)).on j) (wrap_complete (std_complete hk hv hL)) ks
 
 /-- … and with a key text that is not valid: nothing was ever issued, nothing but "" is seen -/
 theorem request_meets_spec_invalid_key (A : Aead) (key : Bytes)
     (hbad : ∀ kd, decode key = some kd → validKeyLen kd.length = false)
     (ex : List Bytes) (j : Jar) (ks : List Bytes) :
     reqViolation stdWire ex [] j (modelViews (stdCodec A key) ex j ks) = none := by
-  refine request_meets_spec ?_ ?_ ex j ks
-  · intro r p hd; rw [(std_invalid_key A key hbad).1 r] at hd; cases hd
-  · exact ⟨fun c0 p r hm => by cases hm, fun c0 p hm => by cases hm⟩
+  refine request_meets_spec ex j ?_ ?_ ks
+  · intro k r p _ hd; rw [(std_invalid_key A key hbad).1 r] at hd; cases hd
+  · refine ⟨?_, ?_⟩
+    · intro c0 p r hm; cases hm
+    · intro c0 p hm; cases hm
 
 /-- round trip for utils.go's pair, from AEAD correctness -/
 theorem roundtrip_aesgcm {A : Aead} (hA : A.Correct) (hG : A.GcmShape) (key : Bytes) (ex : List Bytes)
@@ -386,6 +400,64 @@ theorem response_meets_spec_custom {A : Aead} (hA : A.Correct) (hG : A.GcmShape)
     (h : encryptJar (wrapCodec (stdCodec A key)) ex ns cs = some ws) :
     respAllOK wrapWire ex (issuedBy ex cs ws) cs ws = true :=
   response_meets_spec (wrap_correct (std_correct hA hG)) (wrap_format (std_format hG)) ex ns cs ws hns hb h
+
+/-! ## whole histories -/
+
+/-- unforgeability along a history: at every step, whatever the request carries that the Decryptor
+    accepts denotes a ciphertext issued BEFORE that step -/
+def Unforgeable (C : Codec) (wc : WireCodec) (ex : List Bytes) : Issued → List Step → Prop
+  | _, [] => True
+  | log, s :: rest => C.SoundOn wc log s.jar ∧ Unforgeable C wc ex (nextLog C ex log s) rest
+
+/-- nonces are 12 real bytes, cookie values are byte strings -/
+def GoodSteps (steps : List Step) : Prop :=
+  ∀ s ∈ steps, (∀ n ∈ s.nonces, goodNonce n) ∧ (∀ c ∈ s.cookies, IsBytes c.pvalue)
+
+/-- EVERY HISTORY: for a correct Encryptor/Decryptor pair with the wire format, whose Decryptor
+    depends on a text only through the ciphertext it denotes, and any sequence of exchanges in which
+    the client cannot forge (each request carries nothing decryptable that was not issued before):
+    no step violates any clause of the oracle — requests judged against the log issued so far,
+    responses against the log including them. The log is the one the middleware itself produces. -/
+theorem history_meets_spec {C : Codec} {wc : WireCodec} (hCor : C.Correct) (hF : C.Format wc)
+    (hR : C.Respects wc) (ex : List Bytes) :
+    ∀ (steps : List Step) (log : Issued), C.Wrote log → GoodSteps steps →
+      Unforgeable C wc ex log steps → historyViolation C wc ex log steps = none := by
+  intro steps
+  induction steps with
+  | nil => intro _ _ _ _; rfl
+  | cons s rest ih =>
+    intro log hW hG hU
+    obtain ⟨hS, hU'⟩ := hU
+    have hGs := hG s (by simp)
+    have hGr : GoodSteps rest := fun x hx => hG x (List.mem_cons_of_mem _ hx)
+    unfold historyViolation
+    rw [request_meets_spec ex s.jar hS (complete_of_wrote hCor hF hR hW) s.ks]
+    simp only
+    cases he : encryptJar C ex s.nonces s.cookies with
+    | none =>
+      simp only
+      have : nextLog C ex log s = log := by simp [nextLog, he]
+      rw [this] at hU'
+      exact ih log hW hGr hU'
+    | some ws =>
+      simp only
+      have hp := encryptJar_rel C ex s.cookies s.nonces ws hGs.1 he
+      have hW' : C.Wrote (log ++ issuedBy ex s.cookies ws) := wrote_append hW (wrote_issuedBy hp hGs.2)
+      have hresp : respAllOK wc ex (log ++ issuedBy ex s.cookies ws) s.cookies ws = true :=
+        resp_clause hF ex _ (wrote_functional hCor hW') s.cookies ws hp
+          (fun e hm => List.mem_append.mpr (Or.inr hm))
+      simp only [hresp, Bool.not_true, Bool.false_eq_true, if_false]
+      have : nextLog C ex log s = log ++ issuedBy ex s.cookies ws := by simp [nextLog, he]
+      rw [this] at hU'
+      exact ih _ hW' hGr hU'
+
+/-- the same for utils.go's pair, from the AES-GCM hypotheses -/
+theorem history_meets_spec_aesgcm {A : Aead} (hA : A.Correct) (hG : A.GcmShape) (key : Bytes)
+    (ex : List Bytes) (steps : List Step) (hgood : GoodSteps steps)
+    (hU : Unforgeable (stdCodec A key) stdWire ex [] steps) :
+    historyViolation (stdCodec A key) stdWire ex [] steps = none :=
+  history_meets_spec (std_correct hA hG) (std_format hG) (std_respects A key) ex steps []
+    (fun e he => by cases he) hgood hU
 
 /-! ## configuration -/
 
@@ -455,6 +527,12 @@ theorem old_response_loop_leaks_duplicate :
       [[1], [2]] [(b "a", b "a=one"), (b "a", b "a=two")]
       = some [(b "a", b "a=" ++ [0, 0] ++ b "one"), (b "a", b "a=two")] := by decide
 
+/-- The fix is behaviour-preserving where there was no defect: for a request whose cookie names are
+    pairwise distinct the old in-place loop and the current rebuild produce the same collection. -/
+theorem fix_preserves_requests_without_duplicates (C : Codec) (ex : List Bytes) (j : Jar)
+    (hnd : (j.map (·.1)).Nodup) : decryptJarOld C ex j = decryptJar C ex j :=
+  decryptJarOld_eq_of_nodup C ex j hnd
+
 /-- …while the current loops on the same inputs: nothing raw, nothing in the clear -/
 example : decryptJar ⟨fun _ _ => none, fun _ => none⟩ [] [(b "a", b "x"), (b "a", b "y")] = [(b "a", [])] := by
   decide
@@ -520,5 +598,63 @@ def exWire : Bytes := encode (List.replicate 12 7 ++ List.replicate 17 9)
 example : decryptJar (stdCodec (logAead exL) exKey) [b "x"]
     [(b "a", exWire), (b "b", 10 :: exWire), (b "c", exWire ++ [65]), (b "a", b "admin"), (b "x", b "raw")]
     = [(b "a", b "v"), (b "b", b "v"), (b "c", []), (b "x", b "raw")] := by decide
+
+-- a concrete history (toy AEAD): set two cookies; send them back with a duplicate carrying attacker
+-- text, a truncated value and an excepted cookie; the oracle finds nothing — and does find the
+-- violation when the handler is shown the attacker's text
+def exSteps : List Step :=
+  [{ jar := [], ks := [], cookies := exCookies, nonces := [List.replicate 12 5] },
+   { jar := [(b "a", encode (List.replicate 12 5 ++ (toyAead.sealWith [] [] (b "hi")))), (b "a", b "admin"),
+             (b "b", (encode (List.replicate 12 5 ++ (toyAead.sealWith [] [] (b "hi")))).take 20),
+             (b "csrf_", b "t")],
+     ks := [b "a", b "b", b "csrf_", b "zz"], cookies := [], nonces := [] }]
+
+example : historyViolation (stdCodec toyAead exKey) stdWire [b "csrf_"] [] exSteps = none := by decide
+
+-- the hypotheses of `history_meets_spec_aesgcm` hold together for ONE AEAD on that history
+example : toyAead.Correct ∧ toyAead.GcmShape ∧ GoodSteps exSteps ∧
+    Unforgeable (stdCodec toyAead exKey) stdWire [b "csrf_"] [] exSteps := by
+  refine ⟨?_, ?_, ?_, ?_, ?_, trivial⟩
+  · intro k n p hp
+    have : p.map (· % 256) = p := by
+      rw [List.map_congr_left (g := id)]; simp
+      intro a ha; exact Nat.mod_eq_of_lt (hp a ha)
+    simp [toyAead, this]
+  · intro k n p
+    constructor
+    · intro x hx
+      simp [toyAead] at hx
+      rcases hx with ⟨a, _, rfl⟩ | ⟨_, rfl⟩
+      · exact Nat.mod_lt _ (by decide)
+      · decide
+    · simp [toyAead]
+  · intro s hs
+    simp [exSteps] at hs
+    rcases hs with rfl | rfl
+    · refine ⟨?_, ?_⟩
+      · intro n hn; simp at hn; subst hn; exact ⟨by decide, by decide⟩
+      · intro c hc; simp [exCookies] at hc; rcases hc with rfl | rfl <;> (unfold IsBytes; decide)
+    · refine ⟨?_, ?_⟩
+      · intro n hn; simp at hn
+      · intro c hc; simp at hc
+  · intro k r p hm; cases hm
+  · intro k r p hm hd
+    simp only [exSteps, List.mem_cons, Prod.mk.injEq, List.not_mem_nil, or_false] at hm
+    rcases hm with ⟨rfl, rfl⟩ | ⟨rfl, rfl⟩ | ⟨rfl, rfl⟩ | ⟨rfl, rfl⟩
+    · have h1 : (stdCodec toyAead exKey).dec (encode (List.replicate 12 5 ++ (toyAead.sealWith [] [] (b "hi"))))
+          = some (b "hi") := by decide
+      rw [h1] at hd; cases hd
+      exact ⟨encode (List.replicate 12 5 ++ (toyAead.sealWith [] [] (b "hi"))), by decide, by decide⟩
+    · have h1 : (stdCodec toyAead exKey).dec (b "admin") = none := by decide
+      rw [h1] at hd; cases hd
+    · have h1 : (stdCodec toyAead exKey).dec
+          ((encode (List.replicate 12 5 ++ (toyAead.sealWith [] [] (b "hi")))).take 20) = none := by decide
+      rw [h1] at hd; cases hd
+    · have h1 : (stdCodec toyAead exKey).dec (b "t") = none := by decide
+      rw [h1] at hd; cases hd
+
+example : reqViolation stdWire [] [] [(b "a", b "admin")]
+    { enum := [(b "a", b "admin")], look := [], bind := [], hdr := b "a=admin" }
+    = some "handler-enumerates-other-text" := by decide
 
 end C20
